@@ -3,15 +3,53 @@
 
   Property theorems only (proofs and helper lemmas live in Proofs/CoreLaws.lean).  The subject is
   `Core.call name args`: the reflective binder's count/type checks followed by the builtin's body
-  (`Core.lean`, tied to lib/core/core.go by the correspondence engines on every run).
+  (`Core.lean`, tied to lib/core/core.go by the correspondence engines on every run); for the four
+  builtins that call back into the evaluator (map, apply, update, update-in) it is `callBuiltin`.
   Vocabulary (Proofs/CoreLaws.lean):
     `callOk name args r`  — `(name args…)` returns the value `r`;
     `callErr name args`   — `(name args…)` is an error (a thrown value or a Go error), never a value;
     `Seq s xs`            — `s` is a list or a vector whose elements are `xs`;
-    `holds p v`           — the predicate builtin `p` returns `true` on `v`.
-  Maps are association lists (`alookup`/`ainsert`/`aerase`), sets duplicate-free string lists.
+    `holds p v`           — the predicate builtin `p` returns `true` on `v`;
+    `flatKV kvs`          — the flat argument list `k₁ v₁ k₂ v₂ …`; `insertAll m kvs` — `m[k] = v` in a loop;
+    `insertKeys s ks`     — the keys added to a set one after the other.
+  Maps are association lists (`alookup`/`ainsert`/`aerase`, keys without duplicates = `(akeys m).Nodup`),
+  sets duplicate-free string lists.  Variadic builtins accept at most 1000 arguments (Go: `unlimitedArgments`).
+
+  builtin × domain × result (every line is a theorem below; outside the domain: an error)
+  | builtin            | domain                                         | result                                  |
+  |--------------------|------------------------------------------------|-----------------------------------------|
+  | list / vector      | any ≤ 1000 args                                | list / vector of the args               |
+  | count              | list, vector, map, set, nil                    | int (nil ↦ 0)                           |
+  | empty?             | list, vector, map, set, nil                    | bool (= count is 0)                     |
+  | cons x s           | s list or vector (NOT nil)                     | list `x :: s`                           |
+  | concat s…          | lists / vectors                                | list (also for no argument)             |
+  | first / rest       | list, vector, nil                              | head or nil / LIST of the tail (nil ↦ ())|
+  | nth s i            | s list or vector, int 0 ≤ i < count            | the element; otherwise error            |
+  | take / drop n s    | int n (any sign), s list, vector or nil        | list (nil ↦ ())                         |
+  | drop-last n s      | as take                                        | list (nil ↦ ())                         |
+  | take-last n s      | as take                                        | list, or NIL when nothing is taken      |
+  | subvec v a [b]     | v vector, 0 ≤ a ≤ b ≤ count                    | vector (window); otherwise error        |
+  | range a b          | ints                                           | vector a … b-1 (empty when b ≤ a)       |
+  | vec                | list, vector, set (NOT nil)                    | vector                                  |
+  | seq                | nil, list, vector, set, string                 | nil for nil/()/[]/"", else a list       |
+  | conj c x…          | list (prepends reversed), vector (appends), map (k v pairs), set; NOT nil; ≥ 1 item | same kind as c |
+  | hash-map k v …     | even count, string/keyword keys                | map                                     |
+  | assoc m k v …      | map + string keys (pairs); vector + int index in range; set + keys | map / vector / set |
+  | dissoc m k…        | map or set, string keys                        | map / set                               |
+  | get c k            | nil (↦ nil); map/set + string; list/vector + int index IN RANGE | value or nil (maps, sets) |
+  | contains? c k      | k string; c map, set or nil                    | bool                                    |
+  | keys / vals        | map (NOT nil)                                  | list, same order                        |
+  | merge a b          | each a map or nil                              | map (nil when both nil)                 |
+  | rename-keys m r    | maps; r's values strings                       | map                                     |
+  | get-in c [k…]      | see `get_in_fold`                              | value or nil                            |
+  | assoc-in c [k…] v  | nested maps                                    | map                                     |
+  | set / hash-set     | nil, list/vector of strings / strings          | set without duplicates                  |
+  | map f s            | s list or vector                               | list                                    |
+  | apply f a… s       | s list or vector                               | what f returns                          |
+  | update m k f       | map + string, vector + index, nil (↦ nil)      | map / vector                            |
 -/
 import LispModel.Core
+import LispModel.Eval
 import LispModel.Proofs.CoreLaws
 namespace LispModel.Props.C13
 open LispModel LispModel.Core LispModel.CoreLaws
@@ -29,6 +67,21 @@ theorem count_vector (xs : List Val) (p) : callOk "count" [.vec xs p] (.int xs.l
 /-- `(count nil) = 0` -/
 theorem count_nil : callOk "count" [.nil] (.int 0) := CoreLaws.count_nil
 
+/-- `(count (concat a b)) = (count a) + (count b)` -/
+theorem count_concat {a b xs ys} (ha : Seq a xs) (hb : Seq b ys) :
+    ∃ r, callOk "concat" [a, b] r ∧ callOk "count" [a] (.int xs.length) ∧
+      callOk "count" [b] (.int ys.length) ∧ callOk "count" [r] (.int (xs.length + ys.length)) :=
+  CoreLaws.count_concat ha hb
+
+/-- `(empty? c)` is true exactly when `(count c)` is 0 (same domain) -/
+theorem empty_iff_count_zero (v : Val) (b : Bool) (h : callOk "empty?" [v] (.bool b)) :
+    ∃ n : Nat, callOk "count" [v] (.int n) ∧ (b = true ↔ n = 0) := CoreLaws.empty_iff_count_zero v b h
+
+/-- `(list x…)` / `(vector x…)` build a list / vector of their arguments -/
+theorem list_vector_spec (xs : List Val) (hl : xs.length ≤ 1000) :
+    callOk "list" xs (.list xs none) ∧ callOk "vector" xs (.vec xs none) :=
+  ⟨CoreLaws.list_spec xs hl, CoreLaws.vector_spec xs hl⟩
+
 /-- `(cons x s)` is the LIST `x :: elements s`, for a list or a vector `s` -/
 theorem cons_prepends {s xs} (x : Val) (h : Seq s xs) : callOk "cons" [x, s] (.list (x :: xs) none) :=
   CoreLaws.cons_prepends x h
@@ -36,6 +89,15 @@ theorem cons_prepends {s xs} (x : Val) (h : Seq s xs) : callOk "cons" [x, s] (.l
 /-- `(nth s n)` is the n-th element, for `0 ≤ n < count s` -/
 theorem nth_in_range {s xs} (h : Seq s xs) (n : Nat) (hn : n < xs.length) :
     callOk "nth" [s, .int n] xs[n] := CoreLaws.nth_spec h n hn
+
+/-- `(nth (cons x s) 0) = x` -/
+theorem nth_cons_zero {s xs} (x : Val) (h : Seq s xs) :
+    ∃ r, callOk "cons" [x, s] r ∧ callOk "nth" [r, .int 0] x := CoreLaws.nth_cons_zero x h
+
+/-- `(nth (cons x s) (i+1)) = (nth s i)` for `i ≥ 0`, errors included -/
+theorem nth_cons_succ {s xs} (x : Val) (h : Seq s xs) (i : Int) (hi : 0 ≤ i) :
+    ∃ r, callOk "cons" [x, s] r ∧ Core.call "nth" [r, .int (i + 1)] = Core.call "nth" [s, .int i] :=
+  CoreLaws.nth_cons_succ x h i hi
 
 /-- a non-empty sequence decomposes: `first` is the head, `rest` the LIST of the tail, and `cons`
     puts them together again (as a list with the same elements) -/
@@ -50,7 +112,102 @@ theorem first_rest_of_nothing :
     (∀ s, Seq s [] → callOk "first" [s] .nil ∧ callOk "rest" [s] (.list [] none)) :=
   ⟨CoreLaws.first_nil, CoreLaws.rest_nil, fun _ h => ⟨CoreLaws.first_empty h, CoreLaws.rest_empty h⟩⟩
 
+/-- `(take n s)` and `(drop n s)` are LISTS that split `s`, for every integer `n` -/
+theorem take_drop_append {s xs} (h : Seq s xs) (n : Int) :
+    ∃ a b, callOk "take" [.int n, s] (.list a none) ∧ callOk "drop" [.int n, s] (.list b none) ∧
+      a ++ b = xs := CoreLaws.take_drop_append h n
+
+/-- … `take` has `n` elements when `0 ≤ n ≤ count`, … -/
+theorem take_length {s xs} (h : Seq s xs) (n : Nat) (hn : n ≤ xs.length) :
+    ∃ a, callOk "take" [.int n, s] (.list a none) ∧ a.length = n := CoreLaws.take_length h n hn
+
+/-- … for `n ≤ 0` nothing is taken and nothing dropped, and on nil both give `()` -/
+theorem take_drop_edge_cases :
+    (∀ s xs (n : Int), Seq s xs → n ≤ 0 →
+      callOk "take" [.int n, s] (.list [] none) ∧ callOk "drop" [.int n, s] (.list xs none)) ∧
+    (∀ n : Int, callOk "take" [.int n, .nil] (.list [] none) ∧ callOk "drop" [.int n, .nil] (.list [] none)) :=
+  ⟨fun _ _ n h hn => CoreLaws.take_nonpositive h n hn, fun n => ⟨CoreLaws.take_nil n, CoreLaws.drop_nil n⟩⟩
+
+/-- `(drop-last n s)` and `(take-last n s)` split `s` from the other end, for every integer `n`;
+    `drop-last` gives a list, `take-last` a list or NIL when it takes nothing -/
+theorem take_last_drop_last {s xs} (h : Seq s xs) (n : Int) :
+    ∃ a b, callOk "drop-last" [.int n, s] (.list a none) ∧
+      callOk "take-last" [.int n, s] (if b.isEmpty then .nil else .list b none) ∧ a ++ b = xs :=
+  CoreLaws.take_last_drop_last h n
+
+/-- … `take-last` has `n` elements when `0 < n ≤ count`; on nil: `(take-last n nil) = nil`, `(drop-last n nil) = ()` -/
+theorem take_last_length_and_nil :
+    (∀ s xs (n : Nat), Seq s xs → 0 < n → n ≤ xs.length →
+      ∃ b, callOk "take-last" [.int n, s] (.list b none) ∧ b.length = n) ∧
+    (∀ n : Int, callOk "take-last" [.int n, .nil] .nil ∧ callOk "drop-last" [.int n, .nil] (.list [] none)) :=
+  ⟨fun _ _ n h h0 hn => CoreLaws.take_last_length h n h0 hn,
+   fun n => ⟨CoreLaws.take_last_nil n, CoreLaws.drop_last_nil n⟩⟩
+
+/-- `(subvec v a b)` is exactly the window `take (b-a) (drop a v)`, a VECTOR of `b-a` elements, when
+    `0 ≤ a ≤ b ≤ count v`; in every other case it is an ERROR (never a longer or padded vector) -/
+theorem subvec_is_window (xs p) (a b : Int) :
+    (0 ≤ a ∧ a ≤ b ∧ b ≤ xs.length →
+      callOk "subvec" [.vec xs p, .int a, .int b] (.vec ((xs.drop a.toNat).take (b - a).toNat) none)) ∧
+    (¬ (0 ≤ a ∧ a ≤ b ∧ b ≤ xs.length) → callErr "subvec" [.vec xs p, .int a, .int b]) :=
+  ⟨CoreLaws.subvec_window xs p a b, CoreLaws.subvec_error xs p a b⟩
+
+/-- `(subvec v a)` is `drop a` as a vector when `0 ≤ a ≤ count v`, an error otherwise;
+    `subvec` of a list is an error -/
+theorem subvec_from_and_domain (xs p) (a : Int) :
+    (0 ≤ a ∧ a ≤ xs.length → callOk "subvec" [.vec xs p, .int a] (.vec (xs.drop a.toNat) none)) ∧
+    (¬ (0 ≤ a ∧ a ≤ xs.length) → callErr "subvec" [.vec xs p, .int a]) ∧
+    (∀ idx, callErr "subvec" (.list xs p :: idx)) :=
+  ⟨CoreLaws.subvec2_window xs p a, CoreLaws.subvec2_error xs p a, CoreLaws.subvec_list_error xs p⟩
+
+/-- `(conj '(y…) x₁ … xₙ)` is the LIST `xₙ … x₁ y…` (n ≥ 1) -/
+theorem conj_list_prepends_reversed (ys p) (xs : List Val) (h1 : xs ≠ []) (hl : xs.length < 1000) :
+    callOk "conj" (.list ys p :: xs) (.list (xs.reverse ++ ys) none) := CoreLaws.conj_list ys p xs h1 hl
+
+/-- `(conj [y…] x₁ … xₙ)` is the VECTOR `y… x₁ … xₙ` (n ≥ 1) -/
+theorem conj_vector_appends (ys p) (xs : List Val) (h1 : xs ≠ []) (hl : xs.length < 1000) :
+    callOk "conj" (.vec ys p :: xs) (.vec (ys ++ xs) none) := CoreLaws.conj_vector ys p xs h1 hl
+
+/-- `(concat s₁ … sₙ)` is the LIST of all the elements, in order (n = 0: the empty list) -/
+theorem concat_spec {ss xss} (h : Seqs ss xss) (hl : ss.length ≤ 1000) :
+    callOk "concat" ss (.list xss.flatten none) := CoreLaws.concat_spec h hl
+
+/-- `concat` is associative, and the three-argument form agrees -/
+theorem concat_assoc {a b c xs ys zs} (ha : Seq a xs) (hb : Seq b ys) (hc : Seq c zs) :
+    ∃ ab bc r, callOk "concat" [a, b] ab ∧ callOk "concat" [b, c] bc ∧
+      callOk "concat" [ab, c] r ∧ callOk "concat" [a, bc] r ∧ callOk "concat" [a, b, c] r ∧
+      r = .list (xs ++ ys ++ zs) none := CoreLaws.concat_assoc ha hb hc
+
+/-- `(range a b)` is the VECTOR `a, a+1, …, b-1` -/
+theorem range_spec (f t : Int) : ∃ es, callOk "range" [.int f, .int t] (.vec es none) ∧
+    es.length = (t - f).toNat ∧ ∀ i (h : i < es.length), es[i] = .int (f + i) := CoreLaws.range_spec f t
+
+/-- … empty when `b ≤ a` -/
+theorem range_empty (f t : Int) (h : t ≤ f) : callOk "range" [.int f, .int t] (.vec [] none) :=
+  CoreLaws.range_empty f t h
+
+/-- `(vec s)` is the VECTOR with the elements of the list or vector `s`; of a set, its members -/
+theorem vec_of_list {s xs} (h : Seq s xs) : callOk "vec" [s] (.vec xs none) := CoreLaws.vec_of_seq h
+theorem vec_of_set (ks : List String) : callOk "vec" [.set ks] (.vec (ks.map .str) none) :=
+  CoreLaws.vec_of_set ks
+
+/-- `seq`: nil for nil and for an empty list/vector, otherwise a LIST with the same elements;
+    a set gives the list of its members (the EMPTY set gives `()`, not nil); a map is an error -/
+theorem seq_spec :
+    callOk "seq" [.nil] .nil ∧ (∀ s, Seq s [] → callOk "seq" [s] .nil) ∧
+    (∀ s xs, Seq s xs → xs ≠ [] → ∃ p, callOk "seq" [s] (.list xs p)) ∧
+    (∀ ks, callOk "seq" [.set ks] (.list (ks.map .str) none)) ∧ (∀ m, callErr "seq" [.map m]) :=
+  ⟨CoreLaws.seq_nil, fun _ h => CoreLaws.seq_empty h, fun _ _ h hne => CoreLaws.seq_nonempty h hne,
+   CoreLaws.seq_set, CoreLaws.seq_map_error⟩
+
 /-! ## maps -/
+
+/-- `(hash-map k₁ v₁ … kₙ vₙ)` writes the entries in order into an empty map (later wins) -/
+theorem hash_map_spec (kvs : List (String × Val)) (hl : 2 * kvs.length ≤ 1000) :
+    callOk "hash-map" (flatKV kvs) (.map (insertAll [] kvs)) := CoreLaws.hash_map_spec kvs hl
+
+/-- `(assoc m k₁ v₁ … kₙ vₙ)`, n ≥ 1, writes the entries in order into `m` -/
+theorem assoc_spec (m kvs : List (String × Val)) (hne : kvs ≠ []) (hl : 2 * kvs.length < 1000) :
+    callOk "assoc" (.map m :: flatKV kvs) (.map (insertAll m kvs)) := CoreLaws.assoc_map m kvs hne hl
 
 /-- `(get (assoc m k v) k) = v` -/
 theorem get_assoc_same (m : List (String × Val)) (k : String) (v : Val) :
@@ -63,22 +220,189 @@ theorem get_assoc_other (m : List (String × Val)) {k k' : String} (h : k ≠ k'
       Core.call "get" [r, .str k'] = Core.call "get" [.map m, .str k'] :=
   ⟨_, CoreLaws.assoc_map1 m k v, CoreLaws.get_assoc_other m h v⟩
 
+/-- `(get (dissoc m k) k) = nil`, `(contains? (dissoc m k) k) = false`, other keys are untouched -/
+theorem get_dissoc (m : List (String × Val)) (k : String) (h : (akeys m).Nodup) :
+    ∃ r, callOk "dissoc" [.map m, .str k] r ∧ callOk "get" [r, .str k] .nil ∧
+      callOk "contains?" [r, .str k] (.bool false) ∧
+      ∀ k', k ≠ k' → Core.call "get" [r, .str k'] = Core.call "get" [.map m, .str k'] :=
+  ⟨_, CoreLaws.dissoc_map1 m k, CoreLaws.get_dissoc_same m k h, CoreLaws.contains_dissoc_same m k h,
+   fun _ hk => CoreLaws.get_dissoc_other m hk⟩
+
 /-- `(contains? (assoc m k v) k) = true` -/
 theorem contains_assoc (m : List (String × Val)) (k : String) (v : Val) :
     ∃ r, callOk "assoc" [.map m, .str k, v] r ∧ callOk "contains?" [r, .str k] (.bool true) :=
   ⟨_, CoreLaws.assoc_map1 m k v, CoreLaws.contains_assoc m k v⟩
 
+/-- `(contains? m k)` is true exactly when `k` is one of `(keys m)`; a missing key reads as nil, a
+    present key as the value of its entry -/
+theorem contains_iff_lookup (m : List (String × Val)) (k : String) :
+    (∃ ks, callOk "keys" [.map m] (.list ks none) ∧
+      (callOk "contains?" [.map m, .str k] (.bool true) ↔ Val.str k ∈ ks)) ∧
+    (callOk "contains?" [.map m, .str k] (.bool false) → callOk "get" [.map m, .str k] .nil) ∧
+    (callOk "contains?" [.map m, .str k] (.bool true) → ∃ v, (k, v) ∈ m ∧ callOk "get" [.map m, .str k] v) :=
+  ⟨⟨_, CoreLaws.keys_map m, CoreLaws.contains_iff_keys m k⟩, (CoreLaws.get_of_contains m k).1,
+   (CoreLaws.get_of_contains m k).2⟩
+
+/-- `keys` and `vals` are LISTS enumerating the entries in the same order -/
+theorem keys_vals_zip (m : List (String × Val)) :
+    ∃ ks vs, callOk "keys" [.map m] (.list ks none) ∧ callOk "vals" [.map m] (.list vs none) ∧
+      ks.length = vs.length ∧ ks.zip vs = m.map (fun kv => (Val.str kv.1, kv.2)) :=
+  CoreLaws.keys_vals_zip m
+
+/-- `(count (keys m)) = (count m)` -/
+theorem count_keys (m : List (String × Val)) :
+    ∃ ks n, callOk "keys" [.map m] ks ∧ callOk "count" [ks] (.int n) ∧ callOk "count" [.map m] (.int n) :=
+  CoreLaws.count_keys m
+
+/-- `(merge m1 m2)`: the right map wins on common keys, the left one supplies the others -/
+theorem merge_right_biased (m1 m2 : List (String × Val)) (h2 : (akeys m2).Nodup) (k : String) :
+    ∃ r, callOk "merge" [.map m1, .map m2] r ∧
+      (callOk "contains?" [.map m2, .str k] (.bool true) →
+        Core.call "get" [r, .str k] = Core.call "get" [.map m2, .str k]) ∧
+      (callOk "contains?" [.map m2, .str k] (.bool false) →
+        Core.call "get" [r, .str k] = Core.call "get" [.map m1, .str k]) :=
+  CoreLaws.merge_right_biased m1 m2 h2 k
+
+/-- `(merge nil nil) = nil`; merging a map with nil on either side gives the map back -/
+theorem merge_nil (m : List (String × Val)) (h : (akeys m).Nodup) :
+    callOk "merge" [.nil, .nil] .nil ∧ callOk "merge" [.nil, .map m] (.map m) ∧
+    callOk "merge" [.map m, .nil] (.map m) := by
+  refine ⟨CoreLaws.merge_nil_nil, ?_, ?_⟩
+  · simpa [CoreLaws.insertAll_nil_of_nodup h] using CoreLaws.merge_nil_left m
+  · simpa [CoreLaws.insertAll_nil_of_nodup h] using CoreLaws.merge_nil_right m
+
+/-- an odd number of arguments to `hash-map` is an error -/
+theorem hash_map_odd_is_error (xs : List Val) (h : xs.length % 2 = 1) : callErr "hash-map" xs :=
+  CoreLaws.hash_map_odd_error xs h
+
+/-- a key that is not a string/keyword — after any number of good pairs — makes `hash-map` an error -/
+theorem hash_map_non_string_key_is_error (pre : List (String × Val)) (k v : Val) (post : List Val)
+    (hk : ∀ s, k ≠ .str s) : callErr "hash-map" (flatKV pre ++ k :: v :: post) :=
+  CoreLaws.hash_map_non_string_key_error pre k v post hk
+
+/-- no builtin creates a duplicate key: `assoc` (any arguments), `hash-map`, `conj`, `merge`, `dissoc`
+    return maps whose keys are pairwise different (given that the argument's are) -/
+theorem assoc_overwrites (m : List (String × Val)) (h : (akeys m).Nodup) :
+    (∀ rest r, callOk "assoc" (.map m :: rest) r → ∃ m', r = .map m' ∧ (akeys m').Nodup) ∧
+    (∀ xs r, callOk "hash-map" xs r → ∃ m', r = .map m' ∧ (akeys m').Nodup) ∧
+    (∀ xs r, callOk "conj" (.map m :: xs) r → ∃ m', r = .map m' ∧ (akeys m').Nodup) ∧
+    (∀ m2, ∃ m', callOk "merge" [.map m, .map m2] (.map m') ∧ (akeys m').Nodup) ∧
+    (∀ k, ∃ m', callOk "dissoc" [.map m, .str k] (.map m') ∧ (akeys m').Nodup) :=
+  ⟨fun rest _ e => CoreLaws.assoc_overwrites m rest h e, fun xs _ e => CoreLaws.hash_map_nodup xs e,
+   fun xs _ e => CoreLaws.conj_map_nodup m xs h e, fun m2 => CoreLaws.merge_nodup m m2 h,
+   fun k => CoreLaws.dissoc_nodup m k h⟩
+
+/-- `(conj m k₁ v₁ …)` on a map writes the pairs like `assoc` -/
+theorem conj_map (m kvs : List (String × Val)) (hne : kvs ≠ []) (hl : 2 * kvs.length < 1000) :
+    callOk "conj" (.map m :: flatKV kvs) (.map (insertAll m kvs)) := CoreLaws.conj_map m kvs hne hl
+
+/-- `(get-in v [k₁ … kₙ])` is the iterated `get` (`iterGet`), as long as every value traversed while at
+    least two keys remain is a map or nil (`MapPath`) -/
+theorem get_in_fold (v : Val) (ks : List String) (p) (h : MapPath v ks) :
+    Core.call "get-in" [v, .vec (ks.map .str) p] = some (iterGet v (ks.map .str)) :=
+  CoreLaws.get_in_fold v ks p h
+
+/-- … and not beyond: through a number in the middle of a longer path `get-in` yields nil where the
+    iterated `get` is an error -/
+theorem get_in_through_scalar :
+    callOk "get-in" [.map [("a", .int 5)], .vec [.str "a", .str "b", .str "c"] none] .nil ∧
+    isErr (iterGet (.map [("a", .int 5)]) [.str "a", .str "b", .str "c"]) = true :=
+  CoreLaws.get_in_through_scalar
+
+/-- on nested maps (`NestedMaps`: entries met before the last key are maps, nil or missing — missing
+    levels are created), `get-in` after `assoc-in` with the same non-empty path gives the value -/
+theorem assoc_in_get_in (m : List (String × Val)) (k : String) (ks : List String) (p q) (nv : Val)
+    (h : NestedMaps m (k :: ks)) :
+    ∃ r, callOk "assoc-in" [.map m, .vec ((k :: ks).map .str) p, nv] r ∧
+      callOk "get-in" [r, .vec ((k :: ks).map .str) q] nv := CoreLaws.assoc_in_get_in m k ks p q nv h
+
+/-- `rename-keys` with a renaming `alt` whose applicable values are strings (`RenStr`) and that makes
+    no two keys collide: every key `k` becomes `ren alt k`, values and order are kept -/
+theorem rename_keys_spec (data alt : List (String × Val)) (h : RenStr data alt)
+    (hn : (data.map (fun kv => ren alt kv.1)).Nodup) :
+    callOk "rename-keys" [.map data, .map alt] (.map (data.map (fun kv => (ren alt kv.1, kv.2)))) :=
+  CoreLaws.rename_keys_spec data alt h hn
+
+/-- … a renaming to something that is not a string is an error -/
+theorem rename_keys_non_string_is_error (data alt : List (String × Val)) (k : String) (w : Val)
+    (hk : k ∈ akeys data) (hw : alookup k alt = some w) (hs : ∀ s, w ≠ .str s) :
+    callErr "rename-keys" [.map data, .map alt] :=
+  CoreLaws.rename_keys_non_string_error data alt k w hk hw hs
+
+/-- `(assoc v i x)` on a vector replaces position `i` (in range) and returns a VECTOR; out of range: error -/
+theorem assoc_on_vector (xs p) (x : Val) :
+    (∀ n : Nat, n < xs.length → callOk "assoc" [.vec xs p, .int n, x] (.vec (xs.set n x) none)) ∧
+    (∀ i : Int, i < 0 ∨ (xs.length : Int) ≤ i → callErr "assoc" [.vec xs p, .int i, x]) :=
+  ⟨fun n hn => CoreLaws.assoc_vector xs p n x hn, fun i hi => CoreLaws.assoc_vector_out_of_range xs p i x hi⟩
+
+/-- `(get s i)` on a list or vector is the element for an index in range, an ERROR (not nil) otherwise -/
+theorem get_on_sequence {s xs} (h : Seq s xs) :
+    (∀ n (hn : n < xs.length), callOk "get" [s, .int n] xs[n]) ∧
+    (∀ i : Int, i < 0 ∨ (xs.length : Int) ≤ i → callErr "get" [s, .int i]) :=
+  ⟨fun n hn => CoreLaws.get_seq_index h n hn, fun i hi => CoreLaws.get_seq_out_of_range h i hi⟩
+
 /-! ## sets -/
 
-/-- `(contains? s k)` is membership -/
-theorem contains_set (s : List String) (k : String) :
-    callOk "contains?" [.set s, .str k] (.bool (decide (k ∈ s))) := by
-  simpa using CoreLaws.contains_set s k
+/-- `(hash-set k…)` / `(set s)` contain the given strings (added in order), `(set nil)` is empty -/
+theorem set_constructors (ks : List String) :
+    (ks.length ≤ 1000 → callOk "hash-set" (ks.map .str) (.set (insertKeys [] ks))) ∧
+    (∀ v, Seq v (ks.map .str) → callOk "set" [v] (.set (insertKeys [] ks))) ∧
+    callOk "set" [.nil] (.set []) ∧ (∀ k, k ∈ insertKeys [] ks ↔ k ∈ ks) :=
+  ⟨CoreLaws.hash_set_spec ks, fun _ h => CoreLaws.set_of_seq ks h, CoreLaws.set_nil,
+   fun _ => by simpa using CoreLaws.mem_insertKeys (s := []) (ks := ks)⟩
 
-/-- adding an element twice is the same as adding it once -/
+/-- adding an element twice is the same as adding it once; and no set builtin ever creates a
+    duplicate member (`hash-set`, `set` from any arguments; `conj`, `dissoc` from a duplicate-free set) -/
 theorem set_idempotent (s : List String) (k : String) :
-    ∃ r, callOk "conj" [.set s, .str k] r ∧ callOk "conj" [r, .str k] r :=
-  ⟨_, CoreLaws.conj_set1 s k, by rw [callOk, CoreLaws.conj_set1, CoreLaws.sinsert_idem]⟩
+    (∃ r, callOk "conj" [.set s, .str k] r ∧ callOk "conj" [r, .str k] r) ∧
+    (∀ xs r, callOk "hash-set" xs r → ∃ s', r = .set s' ∧ s'.Nodup) ∧
+    (∀ v r, callOk "set" [v] r → ∃ s', r = .set s' ∧ s'.Nodup) ∧
+    (s.Nodup → ∀ xs r, callOk "conj" (.set s :: xs) r → ∃ s', r = .set s' ∧ s'.Nodup) ∧
+    (s.Nodup → ∃ s', callOk "dissoc" [.set s, .str k] (.set s') ∧ s'.Nodup) :=
+  ⟨⟨_, CoreLaws.conj_set1 s k, by rw [callOk, CoreLaws.conj_set1, CoreLaws.sinsert_idem]⟩,
+   fun xs _ e => CoreLaws.hash_set_nodup xs e, fun v _ e => CoreLaws.set_nodup v e,
+   fun h xs _ e => CoreLaws.conj_set_nodup s xs h e,
+   fun h => ⟨_, CoreLaws.dissoc_set1 s k, CoreLaws.dissoc_set_nodup s k h⟩⟩
+
+/-- `(contains? s k)` is membership; `(get s k)` gives the member back, or nil -/
+theorem contains_set (s : List String) (k : String) :
+    callOk "contains?" [.set s, .str k] (.bool (decide (k ∈ s))) ∧
+    callOk "get" [.set s, .str k] (if k ∈ s then .str k else .nil) := by
+  refine ⟨by simpa using CoreLaws.contains_set s k, ?_⟩
+  simpa using CoreLaws.get_set_member s k
+
+/-- `(conj s k…)` adds the keys: afterwards `k` is a member, the membership of the others is unchanged -/
+theorem conj_set (s : List String) (k : String) :
+    ∃ r, callOk "conj" [.set s, .str k] r ∧ callOk "contains?" [r, .str k] (.bool true) ∧
+      (∀ k', k ≠ k' → Core.call "contains?" [r, .str k'] = Core.call "contains?" [.set s, .str k']) ∧
+      (∀ ks, ks ≠ [] → ks.length < 1000 → callOk "conj" (.set s :: ks.map .str) (.set (insertKeys s ks))) :=
+  ⟨_, CoreLaws.conj_set1 s k, CoreLaws.contains_conj_same s k, fun _ h => CoreLaws.contains_conj_other s h,
+   fun ks h1 h2 => CoreLaws.conj_set s ks h1 h2⟩
+
+/-- `(dissoc s k)` removes the key: afterwards `k` is not a member, the others are unchanged -/
+theorem dissoc_set (s : List String) (k : String) (h : s.Nodup) :
+    ∃ r, callOk "dissoc" [.set s, .str k] r ∧ callOk "contains?" [r, .str k] (.bool false) ∧
+      (∀ k', k ≠ k' → Core.call "contains?" [r, .str k'] = Core.call "contains?" [.set s, .str k']) :=
+  ⟨_, CoreLaws.dissoc_set1 s k, CoreLaws.contains_dissoc_set_same s k h,
+   fun _ hk => CoreLaws.contains_dissoc_set_other s hk⟩
+
+/-- `count` of a set counts the members: adding a new member adds one, a present one nothing;
+    removing a present member takes one away; pairwise different arguments are all counted -/
+theorem count_set (s : List String) (k : String) :
+    callOk "count" [.set s] (.int s.length) ∧
+    (∃ r, callOk "conj" [.set s, .str k] r ∧
+      callOk "count" [r] (.int (s.length + (if k ∈ s then 0 else 1 : Nat)))) ∧
+    (∃ r, callOk "dissoc" [.set s, .str k] r ∧
+      callOk "count" [r] (.int (s.length - (if k ∈ s then 1 else 0 : Nat) : Nat))) ∧
+    (∀ ks : List String, ks.Nodup → insertKeys [] ks = ks) :=
+  ⟨CoreLaws.count_set s, ⟨_, CoreLaws.conj_set1 s k, CoreLaws.count_conj_set s k⟩,
+   ⟨_, CoreLaws.dissoc_set1 s k, CoreLaws.count_dissoc_set s k⟩,
+   fun ks h => by simpa using CoreLaws.insertKeys_fresh (s := []) (ks := ks) (by simpa using h)⟩
+
+/-- a member that is not a string/keyword makes `hash-set` an error -/
+theorem hash_set_non_string_is_error (pre : List String) (x : Val) (post : List Val)
+    (hx : ∀ s, x ≠ .str s) : callErr "hash-set" (pre.map .str ++ x :: post) :=
+  CoreLaws.hash_set_non_string_error pre x post hx
 
 /-! ## errors -/
 
@@ -86,15 +410,190 @@ theorem set_idempotent (s : List String) (k : String) :
 theorem nth_out_of_range_is_error {s xs} (h : Seq s xs) (i : Int) (hi : i < 0 ∨ (xs.length : Int) ≤ i) :
     callErr "nth" [s, .int i] := CoreLaws.nth_out_of_range h i hi
 
-/-- a wrong argument count is an error for every fixed-arity builtin -/
+/-- representative wrong-kind calls (where the model deviates from Clojure the error is stated):
+    `(count 5)`, `(first {…})`, `(cons x nil)`, `(conj nil x)`, `(nth s "k")`, `(get [..] "k")`,
+    `(get {…} 0)`, `(vec nil)`, `(keys nil)`, `(seq {…})`, `(assoc nil k v)`, `(assoc-in nil [k] v)` -/
+theorem wrong_kind_is_error (x s : Val) (i : Int) (k : String) (xs p) (m : List (String × Val)) :
+    callErr "count" [.int i] ∧ callErr "first" [.map m] ∧ callErr "cons" [x, .nil] ∧
+    callErr "conj" [.nil, x] ∧ callErr "nth" [s, .str k] ∧ callErr "get" [.vec xs p, .str k] ∧
+    callErr "get" [.map m, .int i] ∧ callErr "vec" [.nil] ∧ callErr "keys" [.nil] ∧
+    callErr "seq" [.map m] ∧ callErr "assoc" [.nil, .str k, x] ∧
+    callErr "assoc-in" [.nil, .vec [.str k] p, x] :=
+  ⟨CoreLaws.count_int_error i, CoreLaws.first_map_error m, CoreLaws.cons_nil_error x,
+   CoreLaws.conj_nil_error x, CoreLaws.nth_non_int_index_error s k, CoreLaws.get_vec_str_error xs p k,
+   CoreLaws.get_map_int_key m i, CoreLaws.vec_nil_error, (CoreLaws.keys_wrong_kind .nil (by simp)).1,
+   CoreLaws.seq_map_error m, CoreLaws.assoc_wrong_kind .nil _ x (.inr (.inl rfl)),
+   CoreLaws.assoc_in_nil_error k p x⟩
+
+/-- … and in general: outside {list, vector, map, set, nil} `count`, `empty?`, `get`, `conj`, `assoc`
+    are errors -/
+theorem scalar_is_error (v x k : Val) (h : isColl v = false) :
+    callErr "count" [v] ∧ callErr "empty?" [v] ∧ callErr "get" [v, k] ∧ callErr "conj" [v, x] ∧
+    callErr "assoc" [v, k, x] :=
+  ⟨CoreLaws.count_wrong_kind v h, CoreLaws.empty?_wrong_kind v h, CoreLaws.get_scalar v k h,
+   CoreLaws.conj_wrong_kind v x (.inl h), CoreLaws.assoc_wrong_kind v k x (.inl h)⟩
+
+/-- … outside {list, vector} the sequence builtins are errors (`first`, `rest`, `take`, … accept nil too) -/
+theorem non_sequence_is_error (v x : Val) (n : Int) (h : seqOf? v = none) :
+    callErr "cons" [x, v] ∧ callErr "nth" [v, .int n] ∧ callErr "concat" [v] ∧
+    ((∀ ks, v ≠ .set ks) → callErr "vec" [v]) ∧
+    (v ≠ .nil → callErr "first" [v] ∧ callErr "rest" [v] ∧ callErr "take" [.int n, v] ∧
+      callErr "drop" [.int n, v] ∧ callErr "take-last" [.int n, v] ∧ callErr "drop-last" [.int n, v]) :=
+  ⟨CoreLaws.cons_wrong_kind x v h, CoreLaws.nth_wrong_kind v n h,
+   CoreLaws.concat_non_seq_error [v] v (by simp) h, fun hs => CoreLaws.vec_wrong_kind v h hs,
+   fun hn => ⟨CoreLaws.first_wrong_kind v h hn, CoreLaws.rest_wrong_kind v h hn,
+     (CoreLaws.take_wrong_kind v n h hn).1, (CoreLaws.take_wrong_kind v n h hn).2.1,
+     (CoreLaws.take_wrong_kind v n h hn).2.2.1, (CoreLaws.take_wrong_kind v n h hn).2.2.2⟩⟩
+
+/-- … outside maps (and nil where stated) the map builtins are errors; keys must be strings -/
+theorem non_map_is_error (v k x : Val) (h : ∀ m, v ≠ .map m) :
+    callErr "keys" [v] ∧ callErr "vals" [v] ∧
+    ((∀ s, v ≠ .set s) → callErr "dissoc" [v, k]) ∧
+    (v ≠ .nil → callErr "merge" [v, x] ∧ callErr "merge" [x, v]) ∧
+    (∀ m, (∀ s, k ≠ .str s) →
+      callErr "assoc" [.map m, k, x] ∧ callErr "dissoc" [.map m, k] ∧ callErr "contains?" [.map m, k] ∧
+      ((∀ i, k ≠ .int i) → callErr "get" [.map m, k])) :=
+  ⟨(CoreLaws.keys_wrong_kind v h).1, (CoreLaws.keys_wrong_kind v h).2,
+   fun hs => CoreLaws.dissoc_wrong_kind v k h hs,
+   fun hn => ⟨CoreLaws.merge_wrong_kind v x (.inl ⟨hn, h⟩), CoreLaws.merge_wrong_kind x v (.inr ⟨hn, h⟩)⟩,
+   fun m hk => ⟨CoreLaws.assoc_map_non_string_key m k x hk, CoreLaws.dissoc_non_string_key m k hk,
+     CoreLaws.contains_key_not_string _ k hk,
+     fun hi => CoreLaws.get_bad_key _ k (by simp) ⟨hk, hi⟩⟩⟩
+
+/-- a wrong argument count is an error for every fixed-arity builtin (the binder's count check) -/
 theorem arity_errors {name ps} (hs : Core.sigOf name = some (.fixed ps)) (args : List Val)
     (hl : args.length ≠ ps.length) : callErr name args :=
   callErr_of (CoreLaws.arity_error hs args hl) rfl
 
+/-- … for the variadic ones too few (`conj` needs 2, `subvec` 2) or too many (`subvec` 3, all: 1000) -/
+theorem variadic_arity_errors {name mn mx} (hs : Core.sigOf name = some (.variadic mn mx)) (args : List Val)
+    (hl : args.length < mn ∨ (∃ m, mx = some m ∧ m < args.length) ∨ (mx = none ∧ 1000 < args.length)) :
+    callErr name args := by
+  rcases hl with hl | ⟨m, rfl, hl⟩ | ⟨rfl, hl⟩
+  · exact callErr_of (CoreLaws.variadic_arity_error_min hs args hl) rfl
+  · exact callErr_of (CoreLaws.variadic_arity_error_max hs args hl) rfl
+  · exact callErr_of (CoreLaws.variadic_arity_error_1000 hs args hl) rfl
+
+/-- an argument of the wrong Go type for a typed parameter (`nth`'s index, `take`'s count, `range`'s
+    bounds, `contains?`'s key, `rename-keys`' maps, `assoc-in`'s path) is an error (binder's type check) -/
+theorem binder_type_errors {name ps} (hs : Core.sigOf name = some (.fixed ps)) (args : List Val)
+    (hl : args.length = ps.length) (hf : (ps.zip args).all (fun (p, a) => fits p a) = false) :
+    callErr name args :=
+  callErr_of (CoreLaws.binder_type_error hs args hl hf) rfl
+
 /-! ## predicates -/
 
-/-- no value satisfies two different type predicates -/
+/-- no value satisfies two different type predicates among list? vector? map? set? nil? number? string?
+    keyword? symbol? atom? (`typePreds`); in particular at most one collection predicate holds, and
+    `string?` / `keyword?` are exclusive -/
 theorem type_predicates_exclusive {a b} (ha : a ∈ typePreds) (hb : b ∈ typePreds) (hab : a ≠ b) (v : Val) :
     ¬ (holds a v ∧ holds b v) := CoreLaws.type_predicates_exclusive ha hb hab v
+
+/-- every type predicate is total: it answers true or false on every value -/
+theorem type_predicates_total {n} (hm : n ∈ typePreds) (v : Val) : ∃ b, callOk n [v] (.bool b) :=
+  CoreLaws.pred_total hm v
+
+/-- what each predicate recognises -/
+theorem type_predicates_meaning (v : Val) :
+    (holds "list?" v ↔ ∃ xs p, v = .list xs p) ∧ (holds "vector?" v ↔ ∃ xs p, v = .vec xs p) ∧
+    (holds "map?" v ↔ ∃ m, v = .map m) ∧ (holds "set?" v ↔ ∃ s, v = .set s) ∧
+    (holds "nil?" v ↔ v = .nil) ∧ (holds "number?" v ↔ ∃ i, v = .int i) ∧
+    (holds "symbol?" v ↔ ∃ s p, v = .sym s p) ∧
+    (holds "string?" v ↔ ∃ s, v = .str s ∧ Val.isKwStr s = false) ∧
+    (holds "keyword?" v ↔ ∃ s, v = .str s ∧ Val.isKwStr s = true) :=
+  ⟨list?_iff v, vector?_iff v, map?_iff v, set?_iff v, nil?_iff v, number?_iff v, symbol?_iff v,
+   string?_iff v, keyword?_iff v⟩
+
+/-- strings and keywords are both Go strings underneath: a value is a `.str` exactly when one of
+    `string?` / `keyword?` holds -/
+theorem string_keyword_underneath (v : Val) : (holds "string?" v ∨ holds "keyword?" v) ↔ ∃ s, v = .str s :=
+  CoreLaws.string_or_keyword_iff v
+
+/-! ## the builtins that call back into the evaluator (`callBuiltin`, any state, any depth) -/
+
+/-- `map` returns a LIST with one element per element of its list or vector argument -/
+theorem map_result_kind (fuel : Nat) (st : State) (f s : Val) (d : Nat) {v st'}
+    (h : callBuiltin fuel st "map" [f, s] d = (.ok v, st')) :
+    ∃ xs vs, Seq s xs ∧ v = .list vs none ∧ vs.length = xs.length := CoreLaws.map_kind fuel st f s d h
+
+/-- `(map g s)` for a pure builtin `g` defined on every element: the list of the `(g x)`, in order,
+    the evaluator state untouched (enough fuel: count + 3) -/
+theorem map_pure_builtin (g : String) (φ : Val → Val) (hg : g ∉ evalNames) (st : State) (d : Nat)
+    {s xs} (hs : Seq s xs) (hx : ∀ x ∈ xs, Core.call g [x] = some (.ok (φ x))) (fuel : Nat)
+    (hf : xs.length + 3 ≤ fuel) :
+    callBuiltin fuel st "map" [.builtin g, s] d = (.ok (.list (xs.map φ) none), st) :=
+  CoreLaws.map_pure_builtin g φ hg st d hs hx fuel hf
+
+/-- `(apply f a … s)` is `f` applied to `a …` followed by the elements of the list or vector `s`;
+    a last argument that is not a sequence is an error -/
+theorem apply_spreads_last (fuel : Nat) (st : State) (f : Val) (pre : List Val) (last : Val) (d : Nat) :
+    (∀ tail, Seq last tail →
+      callBuiltin (fuel + 1) st "apply" (f :: (pre ++ [last])) d = apply fuel st f (pre ++ tail) d) ∧
+    (seqOf? last = none → ∃ e, callBuiltin (fuel + 1) st "apply" (f :: (pre ++ [last])) d = (.err e, st)) :=
+  ⟨fun _ h => CoreLaws.apply_spreads_last fuel st f pre d h,
+   fun h => CoreLaws.apply_last_not_seq_error fuel st f pre d h⟩
+
+/-- `(update m k f) = (assoc m k (f (get m k)))`; `(update nil k f) = nil`; on anything but a map, a
+    vector or nil an error -/
+theorem update_spec (fuel : Nat) (st : State) (m : List (String × Val)) (k : String) (f : Val) (d : Nat) :
+    callBuiltin (fuel + 2) st "update" [.map m, .str k, f] d =
+      (match apply fuel st f [(alookup k m).getD .nil] d with
+       | (.ok res, st') => (.ok (.map (ainsert k res m)), st')
+       | r => r) ∧
+    (∀ i, callBuiltin (fuel + 1) st "update" [.nil, i, f] d = (.ok .nil, st)) ∧
+    (∀ v i, v ≠ .nil → (∀ m, v ≠ .map m) → (∀ xs p, v ≠ .vec xs p) →
+      ∃ e, callBuiltin (fuel + 2) st "update" [v, i, f] d = (.err e, st)) :=
+  ⟨CoreLaws.update_map fuel st m k f d, fun i => CoreLaws.update_nil fuel st i f d,
+   fun v i h1 h2 h3 => CoreLaws.update_wrong_kind fuel st v i f d h1 h2 h3⟩
+
+/-- `(update-in nil p f) = nil`; an empty path returns the value; a one-key path is `update`; a longer
+    path on a map whose entry at the first key is a map (nil/missing: an empty map is created) updates
+    the inner map along the rest of the path and `assoc`s it back -/
+theorem update_in_spec (fuel : Nat) (st : State) (f : Val) (d : Nat) (p) :
+    (∀ path, callBuiltin (fuel + 1) st "update-in" [.nil, .vec path p, f] d = (.ok .nil, st)) ∧
+    (∀ v, v ≠ .nil → callBuiltin (fuel + 2) st "update-in" [v, .vec [] p, f] d = (.ok v, st)) ∧
+    (∀ v i, v ≠ .nil → callBuiltin (fuel + 2) st "update-in" [v, .vec [i] p, f] d =
+      callBuiltin (fuel + 1) st "update" [v, i, f] d) ∧
+    (∀ (m mb : List (String × Val)) (k : String) (i2 : Val) (rest : List Val),
+      ((alookup k m).getD .nil = .map mb ∨ ((alookup k m).getD .nil = .nil ∧ mb = [])) →
+      callBuiltin (fuel + 2) st "update-in" [.map m, .vec (.str k :: i2 :: rest) p, f] d =
+        (match updateIn fuel st (.map mb) (i2 :: rest) f d with
+         | (.ok inner, st') => (.ok (.map (ainsert k inner m)), st')
+         | r => r)) :=
+  ⟨fun path => CoreLaws.update_in_nil fuel st path p f d,
+   fun v hv => CoreLaws.update_in_empty_path fuel st v p f d hv,
+   fun v i hv => CoreLaws.update_in_one_key fuel st v i p f d hv,
+   fun m mb k i2 rest hb => CoreLaws.update_in_step fuel st m mb k i2 rest p f d hb⟩
+
+/-- deviation: a vector stored inside a map cannot be traversed by `update-in` (the branch must have
+    the kind of its parent): an error -/
+theorem update_in_mixed_kinds_is_error (fuel : Nat) (st : State) (m : List (String × Val)) (k : String)
+    (xs q) (i2 : Val) (rest : List Val) (p) (f : Val) (d : Nat)
+    (hb : (alookup k m).getD .nil = .vec xs q) :
+    ∃ e, callBuiltin (fuel + 2) st "update-in" [.map m, .vec (.str k :: i2 :: rest) p, f] d = (.err e, st) :=
+  CoreLaws.update_in_mixed_kinds_error fuel st m k xs q i2 rest p f d hb
+
+/-! ## non-vacuity: concrete calls -/
+
+example : callOk "subvec" [.vec [.int 1, .int 2, .int 3] none, .int 1, .int 2] (.vec [.int 2] none) := rfl
+example : callErr "subvec" [.vec [.int 1, .int 2, .int 3] none, .int 2, .int 4] := callErr_of rfl rfl
+example : callOk "take" [.int (-1), .list [.int 1, .int 2] none] (.list [] none) := rfl
+example : callOk "take-last" [.int 0, .vec [.int 1] none] .nil := rfl
+example : callOk "range" [.int 2, .int 5] (.vec [.int 2, .int 3, .int 4] none) := rfl
+example : callOk "conj" [.list [.int 3] none, .int 2, .int 1] (.list [.int 1, .int 2, .int 3] none) := rfl
+example : callErr "get" [.vec [.int 1, .int 2] none, .int 5] := callErr_of rfl rfl
+example : callErr "hash-map" [.str "a", .int 1, .str "b"] := callErr_of rfl rfl
+example : MapPath (.map [("a", .map [("b", .map [("c", .int 1)])])]) ["a", "b", "c"] := by
+  simp [MapPath, alookup]
+example : NestedMaps [("a", .map [])] ["a", "b", "c"] := by simp [NestedMaps, alookup]
+example : holds "keyword?" (Val.kw "a") := by
+  rw [keyword?_iff]; exact ⟨_, rfl, by decide⟩
+/-- `(map count [(1) nil])` on the initial state (`callBuiltin` does not reduce by `rfl` — its fuel
+    recursion is not kernel-evaluable on open terms — so the instance goes through the theorem) -/
+example : callBuiltin 5 initState "map" [.builtin "count", .vec [.list [.int 1] none, .nil] none] 0 =
+    (.ok (.list [.int 1, .int 0] none), initState) :=
+  map_pure_builtin "count" (fun v => match v with | .list xs _ => .int xs.length | _ => .int 0)
+    (by decide) initState 0 (Seq_vec _ none)
+    (by intro x hx; simp at hx; rcases hx with rfl | rfl <;> rfl) 5 (by decide)
 
 end LispModel.Props.C13
